@@ -33,6 +33,16 @@ package buffer
 //@   ensures[S]  1 <= result1 && result1 <= 4
 //@   ensures[S]  z.pos+pos < len(z.buf)-1 ==> z.pos+pos+result1 <= len(z.buf)-1
 
+//@   ensures[F,C12] @value1: result1 == 1 ==> result0 == z.buf[z.pos+pos]
+//@   ensures[F,C12] @value2: result1 == 2 ==> result0 == (z.buf[z.pos+pos] % 32) * 64 + z.buf[z.pos+pos+1] % 64
+//@   ensures[F,C12] @value3: result1 == 3 ==> result0 == (z.buf[z.pos+pos] % 16) * 4096 + (z.buf[z.pos+pos+1] % 64) * 64 + z.buf[z.pos+pos+2] % 64
+//@   ensures[F,C12] @value4: result1 == 4 ==> result0 == (z.buf[z.pos+pos] % 8) * 262144 + (z.buf[z.pos+pos+1] % 64) * 4096 + (z.buf[z.pos+pos+2] % 64) * 64 + z.buf[z.pos+pos+3] % 64
+
+// Restore gives the borrowed byte back once: afterwards the lexer holds no way to write the caller's memory again
+//@ func Lexer.Restore
+//@   requires[S] z != nil
+//@   ensures[F,C12] @once: z.restore == nil
+
 //@ func Lexer.Pos
 //@   requires[S] lexBufInv(z)
 //@   ensures[S]  result == z.pos - z.start
